@@ -28,7 +28,7 @@ func init() { core.Register(c13{}) }
 
 func (c13) ID() string { return "C13" }
 func (c13) Rule() string {
-	return "plans: (a quarter with a well-formed store under a directory spelled almost like a store type, loaded from under that spelling) <= 12 operator operations on truststore/x509/<type>/<name>/ (write PEM / DER / multi-certificate files of root CA, intermediate CA, self-signed leaf, non-self-signed leaf; garbage, empty and torn certificate files; sub-directory; symlink to a file; store directory replaced by a symlink; stray certificate directly under x509/<type>/; removals) interleaved with <= 8 loads over store types (valid, invalid) and names (plain, dotted, with separators, '.', '..', empty), with EIO / EACCES injected into Lstat / ReadDir of a load. non-trivial: a load addressed an existing path whose content is not a plain valid store, or a fault fired; distinct: hash of (operations, load arguments, verdicts)"
+	return "plans: (what earlier loads returned is kept and compared after later ones; a quarter with a well-formed store under a directory spelled almost like a store type, loaded from under that spelling) <= 12 operator operations on truststore/x509/<type>/<name>/ (write PEM / DER / multi-certificate files of root CA, intermediate CA, self-signed leaf, non-self-signed leaf; garbage, empty and torn certificate files; sub-directory; symlink to a file; store directory replaced by a symlink; stray certificate directly under x509/<type>/; removals) interleaved with <= 8 loads over store types (valid, invalid) and names (plain, dotted, with separators, '.', '..', empty), with EIO / EACCES injected into Lstat / ReadDir of a load. non-trivial: a load addressed an existing path whose content is not a plain valid store, or a fault fired; distinct: hash of (operations, load arguments, verdicts)"
 }
 func (c13) Components() map[string]string {
 	return map[string]string{
@@ -156,6 +156,19 @@ func c13Expect(root, typ, name string) (certs []*x509.Certificate, why string) {
 	return certs, ""
 }
 
+// rawSeq: the certificates of a slice, in order (nil entries included).
+func rawSeq(cs []*x509.Certificate) string {
+	var s []string
+	for _, c := range cs {
+		if c == nil || len(c.Raw) < 12 {
+			s = append(s, "nil")
+			continue
+		}
+		s = append(s, fmt.Sprintf("%x", c.Raw[len(c.Raw)-12:]))
+	}
+	return strings.Join(s, ",")
+}
+
 func rawSet(cs []*x509.Certificate) string {
 	var s []string
 	for _, c := range cs {
@@ -226,6 +239,13 @@ func (l c13) Exec(env *core.Env) *core.Result {
 		ts := truststore.NewX509TrustStore(dir.NewSysFS(root))
 		ctx := context.Background()
 		loadNo := 0
+		// what earlier loads returned, as the caller still holds it: a later load leaves it alone
+		type heldLoad struct {
+			key  string
+			got  []*x509.Certificate
+			snap string
+		}
+		var held []heldLoad
 		for _, op := range p.Ops {
 			rt.Yield("op")
 			storeDir := filepath.Join(x, op.Str(0), op.Str(1))
@@ -331,6 +351,16 @@ func (l c13) Exec(env *core.Env) *core.Result {
 				}
 				key := fmt.Sprintf("load type=%q name=%q", typ, short(name))
 				trace = append(trace, map[string]any{"op": key, "verdict": verdict, "expected_failure": why, "returned": len(got)})
+				for i := 0; i < len(held); i++ {
+					if now := rawSeq(held[i].got); now != held[i].snap {
+						res.Violate("C13/returned-set-rewritten-by-a-later-load", held[i].key+" then "+key, "the certificates returned by %s were [%s]; after %s the caller's slice holds [%s]", held[i].key, held[i].snap, key, now)
+						held = append(held[:i], held[i+1:]...)
+						i--
+					}
+				}
+				if err == nil && len(got) > 0 {
+					held = append(held, heldLoad{key, got, rawSeq(got)})
+				}
 				sim.Abstract(key + "|" + verdict + "|" + why)
 				if why != "" && why != "store does not exist" && why != "unknown store type" || faulted {
 					res.Nontrivial = true
